@@ -527,3 +527,28 @@ func verifStdout() string {
 	return out
 }
 func verifNameEq(a, b string) bool { return a == b }
+
+// verifPlantFailingFile: *f becomes the write end of a pipe whose reader takes a few bytes and goes away: the next large
+// write is accepted only in part and then fails with EPIPE
+func verifPlantFailingFile(f **os.File) {
+	r, w, err := os.Pipe()
+	if err != nil {
+		panic(err)
+	}
+	*f = w
+	go func() {
+		buf := make([]byte, 1000)
+		r.Read(buf)
+		time.Sleep(20 * time.Millisecond)
+		r.Close()
+	}()
+}
+
+func verifFDEndsWith(f *os.File, data string) bool {
+	return strings.HasSuffix(verifFDContent(f), data)
+}
+
+// verifBig blows a string up beyond the capacity of a pipe (1 MiB), keeping distinct strings distinct
+func verifBig(s string) string {
+	return s + "|" + strings.Repeat("x", 1<<20) + "|" + s + "\n"
+}
